@@ -220,9 +220,17 @@ def make_fm(dim, fm):
   return gp_fm(dim, fm["spec"])
 
 
-def arr(ps, dim):
+def arr(ps, dim, style=None):
+  """the rows as an array, in the form `style` of lib.gpgen.HANDOVER_STYLES (None: a fresh float64 C array).  The numbers are the same in every
+  form - integer dtype (what numpy.array() makes of one-hot rows written with Python ints, as the views do on int / categorical domains),
+  float32, Fortran order, a strided view, a read-only array - so nothing an entry point returns may depend on it."""
+  from lib import gpgen
   a = numpy.array(ps, dtype=float)
-  return a.reshape((len(ps), dim)) if len(ps) == 0 else a
+  return a.reshape((len(ps), dim)) if len(ps) == 0 else gpgen.handover(a, style)
+
+
+def style_of(inp, key):
+  return (inp.get("handover") or {}).get(key)
 
 
 class ScriptedChoice:
@@ -256,14 +264,14 @@ def run_eval(inp):
   dom, D = mk_domain(desc), oh_dim(desc)
   fm, pfs = make_fm(D, inp["fm"])
   dp = numpy.array([inp["dp"]]) if inp.get("dp_as_array") else inp["dp"]
-  r0 = None if inp["r0"] is None else arr(inp["r0"], D)
+  r0 = None if inp["r0"] is None else arr(inp["r0"], D, style_of(inp, "r0"))
   r0_before = None if r0 is None else r0.copy()
   af = ProbabilityOfImprovementSearch(dom, fm, dp, r0)
-  adds = [arr(a, D) for a in inp["adds"]]
-  adds_before = copy.deepcopy(adds)
+  adds = [arr(a, D, style_of(inp, "adds")) for a in inp["adds"]]
+  adds_before = [a.copy() for a in adds]
   for a in adds:
     af.add_normalized_repulsor_point(a)
-  p = arr(inp["pts"], D)
+  p = arr(inp["pts"], D, style_of(inp, "pts"))
   p_before = p.copy()
   if inp.get("pre_dp") is not None:
     # the same object has already scored the same points under another (larger) radius, as it does between two picks of one call:
@@ -277,7 +285,7 @@ def run_eval(inp):
     outs[str(bs)] = [float(v) for v in af.evaluate_at_point_list(p, batch_size=bs)]
   unmodified = numpy.array_equal(p, p_before) and (r0 is None or numpy.array_equal(r0, r0_before)) and all(
     numpy.array_equal(a, b) for a, b in zip(adds, adds_before))
-  out = dict(values=outs, reps=af.repulsor_points.tolist(), inputs_unmodified=bool(unmodified))
+  out = dict(values=outs, reps=af.repulsor_points.tolist(), inputs_unmodified=bool(unmodified), pts_dtype=str(p.dtype))
   if pfs is not None:
     out["factors"] = [[float(v) for v in pf.compute_probability_of_success(p)] for pf in pfs]
     out["fm_values"] = [float(v) for v in fm.compute_probability_of_success(p)]
@@ -291,7 +299,7 @@ def run_loop(inp):
   desc = inp["domain"]
   dom, D = mk_domain(desc), oh_dim(desc)
   fm, _ = make_fm(D, inp["fm"])
-  af = ProbabilityOfImprovementSearch(dom, fm, inp["dp0"], arr(inp["r0"], D))
+  af = ProbabilityOfImprovementSearch(dom, fm, inp["dp0"], arr(inp["r0"], D, style_of(inp, "r0")))
   init_reps = af.repulsor_points.copy()
   picks = [numpy.array(p, dtype=float) for p in inp["picks"]]
   trace = []
@@ -409,7 +417,8 @@ def run_view(inp):
 
   me = types.SimpleNamespace(
     params=dict(num_to_sample=1), form_probabilistic_failures_model=lambda: fm, domain=dom, tag={},
-    one_hot_points_sampled_points=arr(inp["sampled"], D), one_hot_points_being_sampled_points=arr(inp["pending"], D))
+    one_hot_points_sampled_points=arr(inp["sampled"], D, style_of(inp, "sampled")),
+    one_hot_points_being_sampled_points=arr(inp["pending"], D, style_of(inp, "pending")))
   orig = snp.DEOptimizer, snp.convert_from_one_hot
   snp.DEOptimizer = StubOptimizer
   snp.convert_from_one_hot = lambda p, d, a: p
@@ -436,13 +445,13 @@ def run_impl(kind, inp):
   desc = inp.get("domain")
   if kind == "search":
     dom = mk_domain(desc)
-    p = arr(inp["pts"], oh_dim(desc))
+    p = arr(inp["pts"], oh_dim(desc), style_of(inp, "pts"))
     before = p.copy()
     out = S.convert_one_hot_to_search_hypercube_points(dom, p)
     return dict(out=out.tolist(), inputs_unmodified=bool(numpy.array_equal(p, before)))
   if kind == "unit":
     dom = mk_domain(desc)
-    p = arr(inp["pts"], oh_dim(desc))
+    p = arr(inp["pts"], oh_dim(desc), style_of(inp, "pts"))
     before = p.copy()
     u = S.map_non_categorical_points_to_unit_hypercube(dom.one_hot_domain, p)
     u_before = u.copy()
@@ -642,7 +651,49 @@ def gen_loop(rng, exact):
               fm=dict(type="table", table=[]), np_seed=rng.randint(0, 10 ** 6), exact=exact)
 
 
+def snap_point(desc, pnt):
+  """the nearest point every entry of which is a whole number (numeric coordinates rounded, one-hot blocks set to 0 / 1 at the first largest
+  entry): the rows a caller naturally writes with Python ints, so that numpy.array() makes an INTEGER array of them"""
+  q, i = [], 0
+  for c in desc:
+    if c[0] == "categorical":
+      blk = pnt[i:i + c[1]]
+      best = max(range(c[1]), key=lambda t: (blk[t], -t))
+      q += [1.0 if j == best else 0.0 for j in range(c[1])]
+      i += c[1]
+    else:
+      q.append(float(math.floor(pnt[i] + 0.5)))
+      i += 1
+  return q
+
+
 def gen_case(rng):
+  """gen_case_plain, and in a third of the cases every array of the call is handed over in a randomly chosen form (lib.gpgen.HANDOVER_STYLES);
+  in half of those the points are first snapped to whole numbers and the point arrays handed over with an integer dtype"""
+  from lib import gpgen
+  kind, inp = gen_case_plain(rng)
+  keys = dict(eval=("pts", "r0", "adds"), loop=("r0",), search=("pts",), unit=("pts",), view=("sampled", "pending")).get(kind)
+  if not keys or rng.random() >= 0.35:
+    return kind, inp
+  inp["handover"] = {k: rng.choice(gpgen.HANDOVER_STYLES) for k in keys}
+  if rng.random() < 0.5:
+    desc = inp["domain"]
+    snap = lambda ps: None if ps is None else [snap_point(desc, q) for q in ps]
+    if kind == "eval" and inp["fm"]["type"] == "table":   # the scripted failure model is a table over the evaluation points: move its keys along
+      val = {}
+      for key, v in inp["fm"]["table"]:
+        val.setdefault(tuple(snap_point(desc, key)), v)
+      inp["fm"]["table"] = [[list(k), v] for k, v in val.items()]
+    for k in keys:
+      if k == "adds":
+        inp[k] = [snap(a) for a in inp[k]]
+      else:
+        inp[k] = snap(inp[k])
+      inp["handover"][k] = rng.choice(["int", "int", inp["handover"][k]])
+  return kind, inp
+
+
+def gen_case_plain(rng):
   r = rng.random()
   exact = rng.random() < 0.7
   if r < 0.42:
@@ -729,10 +780,17 @@ def branch(kind, inp, out):
     z = sum(1 for x in v if x == 0)
     tag = "eval:" + ("real-fm" if inp["fm"]["type"] != "table" else "exact" if inp["exact"] else "fuzzy")
     return [tag, "eval:some-zeroed" if z else "eval:none-zeroed", "eval:some-kept" if z < len(v) else "eval:all-zeroed",
-            "eval:no-repulsors" if not out["reps"] else "eval:repulsors"]
+            "eval:no-repulsors" if not out["reps"] else "eval:repulsors"] + handover_tags(inp, out)
   if kind in ("erreval", "erradd"):
     return [f"{kind}:{'raised' if out['raised'] else 'accepted'}"]
-  return [kind]
+  return [kind] + handover_tags(inp, out)
+
+
+def handover_tags(inp, out):
+  tags = [f"handover:{k}={v}" for k, v in sorted((inp.get("handover") or {}).items()) if v != "float64"]
+  if out.get("pts_dtype", "float64") != "float64":
+    tags.append("handover:evaluation-points-dtype-" + out["pts_dtype"])
+  return tags
 
 
 def nontrivial(kind, inp, out):
@@ -1009,3 +1067,10 @@ LEVEL_NOTE = ("Squared distances over Q, target t a parameter (numpy.sqrt is irr
               "logistic and product forms); aliasing clauses decided at run time; harness trusted; no axioms")
 TECHNIQUE = "Coq proof (induction over domain / trace, invariants) on executable model + in-Coq differential correspondence"
 DESIGN_REF = "DESIGN.md section 7, C19"
+
+# --- gap round A: how the point arrays are handed over
+ASSUMPTIONS.append("the value at a point depends on the numbers, not on the array they arrive in: every point array of a call (evaluation points, initial and "
+                   "added repulsors, observed / pending points of the view) is also handed over with an integer dtype (whole-number points, as the views' "
+                   "numpy.array of int lists), as float32 (when exact), in Fortran order, as a strided view and read-only (lib.gpgen.handover); model and "
+                   "oracle see the same numbers, so the comparison is unchanged")
+LEVEL_NOTE += "; the array forms of lib.gpgen.HANDOVER_STYLES are part of the generated inputs (correspondence and searcher)"
